@@ -14,7 +14,7 @@ TInit == \/ entry \in {[level |-> "kernel", r |-> r, p |-> p, f |-> f,
          \/ entry \in UNION {{[level |-> "mineral", r |-> r, p |-> p, f |-> f, asm |-> a, cb |-> cb,
                         cls |-> Dispatch([phase |-> p, fabric |-> f, regime |-> r, n |-> 3],
                                          IF cb = NoCb THEN r ELSE cb,
-                                         [M |-> 125, chi |-> 3, asm |-> a, phiOl |-> 7])] :
+                                         [M |-> 125, chi |-> 3, asm |-> a, phiOl |-> 7, x |-> <<5, 0>>])] :
                         r \in Regimes, f \in Fabrics, a \in Asms(p), cb \in {NoCb, 4, 5}} : p \in Phases}
 TNext == UNCHANGED entry
 TSpec == TInit /\ [][TNext]_entry
